@@ -190,6 +190,18 @@ impl Gen {
         if _cap > 16 && self.rng.gen_bool(0.15) {
             return json!({"name": "s_eq_clone"});
         }
+        if self.rng.gen_bool(if _cap > 16 { 0.15 } else { 0.06 }) {
+            // the container against a second set: a random part of it plus a few foreign elements
+            let mut b: Vec<Cls> = present.iter().copied().filter(|_| self.rng.gen_bool(0.5)).collect();
+            for _ in 0..self.rng.gen_range(0..3) {
+                let c = self.rng.gen_range(0..self.classes);
+                if !b.contains(&c) && b.len() < _cap {
+                    b.push(c);
+                }
+            }
+            let kind = ["union", "intersection", "difference", "symmetric_difference"][self.rng.gen_range(0..4)];
+            return json!({"name": "s_algebra", "kind": kind, "b": b});
+        }
         let mut x = self.rng.gen_range(0..100);
         if _cap > 16 && ((65..=72).contains(&x) || (83..=88).contains(&x)) && self.rng.gen_bool(0.9) {
             x = 30; // large containers: emptying calls only rarely
